@@ -411,6 +411,40 @@ func identityEvents(w *world.World, run string, origins []string) ([]any, error)
 		mu.Unlock()
 		add("distributor PUT path", o, id)
 	}
+	// the same while some of the logs have no checkpoint yet (a fresh start, a feeder that has not succeeded so far): every other origin, starting
+	// with the FIRST configured one, is left without; what is pushed for the others still goes to their own ids
+	if len(origins) >= 2 {
+		wit2, err := newWitnessFromMap(m, signers)
+		if err != nil {
+			return nil, err
+		}
+		adapter2 := witnessAdapterOf(wit2)
+		h2 := shimNewHandler(bastion.Config{Logs: logs, WitnessVerifier: witV, Limits: bastion.RequestLimits{TotalPerSecond: rate.Limit(10000)}}, adapter2)
+		for i, o := range origins {
+			if i%2 == 0 {
+				continue
+			}
+			root := ref.EmptyRoot()
+			text := ref.CheckpointText(o, 0, root[:], "")
+			rec := httptest.NewRecorder()
+			h2.ServeHTTP(rec, httptest.NewRequest(http.MethodPost, "/", strings.NewReader("old 0\n\n"+text+"\n"+key.SignLegacy(text))))
+		}
+		mu.Lock()
+		puts = map[string]string{}
+		mu.Unlock()
+		if d2, err := rest.NewDistributor(srv.URL, srv.Client(), logs, witV, adapter2); err == nil {
+			_ = d2.DistributeOnce(context.Background())
+		}
+		for i, o := range origins {
+			if i%2 == 0 {
+				continue
+			}
+			mu.Lock()
+			id := puts[o]
+			mu.Unlock()
+			add("distributor PUT path while other logs have no checkpoint yet", o, id)
+		}
+	}
 	// a feeder: which id does it use towards the witness?
 	for i, o := range origins {
 		rw := &idWitness{}
